@@ -215,3 +215,14 @@ Section Quot.
     apply Zfloor_le. lra.
   Qed.
 End Quot.
+
+(* ------------------------------------------------------------ a zero bin size *)
+(* nbin mode on constant data: binsize = (max - min) / nbin = +0; every quotient is NaN or
+   infinite, the conversion gives INT64_MIN: no datum has a valid bin index. *)
+Lemma div_zero_int64_min f bs : zero_f bs = true ->
+  f2z_trunc (PrimFloat.div f bs) = int64_min /\ f2z_floor (PrimFloat.div f bs) = int64_min.
+Proof.
+  unfold zero_f, f2z_trunc, f2z_floor. rewrite <- !FP.B2SF_Prim2B, FP.div_equiv.
+  destruct (FP.Prim2B bs) as [sb|sb| |sb mb eb Bb]; cbn [B2SF]; try discriminate. intros _.
+  destruct (FP.Prim2B f) as [s|s| |s m e B]; cbn; auto.
+Qed.
